@@ -20,7 +20,7 @@
    NO proofs in this file. *)
 From Coq Require Import ZArith List Bool Arith.
 From Common Require Import ListAux.
-From Hash Require Import Gen_Hash HashBase.
+From Hash Require Import Gen_Hash Gen_HashKeys HashBase.
 Import ListNotations.
 Local Open Scope Z_scope.
 
@@ -180,6 +180,74 @@ Fixpoint pairwise (kd : kind) (la lb : list node) : bool :=
 Definition eq_tables (kd : kind) (a b : table) : bool :=
   if size a =? size b then pairwise kd (order a) (order b) else false.
 
+(* ---- traversal through iterators -------------------------------------------------------------------
+   An iterator holds an item pointer: an item (named by its slot = its address), the end sentinel of the
+   object, or null.  In the list representation the prev pointer of the item standing at rank r+1 designates
+   the item at rank r, the prev pointer of the first item is null (HashMap.hpp insert: item->prev =
+   insertPos->prev; remove: item->next->prev = item->prev), and the prev pointer of the sentinel is the
+   explicit field [end_prev].  _begin.item is the first item, or the sentinel when there is none. *)
+Inductive ipos := PEnd | PItem (s : slot) | PNull.
+
+Definition slot_eqb (a b : slot) : bool := (fst a =? fst b) && (snd a =? snd b).
+Definition ipos_eqb (p q : ipos) : bool :=
+  match p, q with
+  | PEnd, PEnd => true
+  | PItem a, PItem b => slot_eqb a b
+  | PNull, PNull => true
+  | _, _ => false
+  end.
+
+Definition begin_pos (l : list node) : ipos := match l with [] => PEnd | n :: _ => PItem (nslot n) end.
+
+(* item->prev of the item whose address is s; pv = what the prev pointer of the head of l holds; None: no such item *)
+Fixpoint prev_in (s : slot) (pv : ipos) (l : list node) : option ipos :=
+  match l with
+  | [] => None
+  | n :: r => if slot_eqb s (nslot n) then Some pv else prev_in s (PItem (nslot n)) r
+  end.
+
+(* the item object at address s *)
+Fixpoint node_at (s : slot) (l : list node) : option node :=
+  match l with
+  | [] => None
+  | n :: r => if slot_eqb s (nslot n) then Some n else node_at s r
+  end.
+
+(* operator--: item = item->prev *)
+Definition prev_pos (ep : option slot) (l : list node) (p : ipos) : option ipos :=
+  match p with
+  | PEnd => Some (match ep with Some s => PItem s | None => PNull end)
+  | PItem s => prev_in s PNull l
+  | PNull => None
+  end.
+
+(* for(it = end(); it != begin(); ) { --it; visit(it.key(), *it); } *)
+Fixpoint walk_back (fuel : nat) (ep : option slot) (l : list node) (p : ipos) : option (list (K * Z)) :=
+  match fuel with
+  | O => None
+  | S f =>
+      if ipos_eqb p (begin_pos l) then Some []
+      else match prev_pos ep l p with
+           | Some (PItem s) =>
+               match node_at s l with
+               | Some n => match walk_back f ep l (PItem s) with
+                           | Some w => Some ((nkey n, nval n) :: w)
+                           | None => None
+                           end
+               | None => None
+               end
+           | _ => None
+           end
+  end.
+
+Definition iter_back (t : table) : option (list (K * Z)) :=
+  walk_back (S (length (order t))) (end_prev t) (order t) PEnd.
+
+(* for(it = begin(); it != end(); ++it) visit(it.key(), *it): the chain reached from _begin.item through the
+   next pointers IS the list [order] *)
+Definition iter_fwd (t : table) : option (list (K * Z)) :=
+  Some (map (fun n => (nkey n, nval n)) (order t)).
+
 Definition value_res (kd : kind) (it : iter K) : res K :=
   match kd with
   | KSet => RNone
@@ -256,6 +324,8 @@ Definition step (kd : kind) (st : list table) (o : op K) : list table * res K :=
                                                 RIter (Some (r, nkey n, v)))
                               | None => (t, RIter None)
                               end)
+  | OIterFwd x => with_var st x (fun t => (t, RWalk (iter_fwd t)))
+  | OIterBack x => with_var st x (fun t => (t, RWalk (iter_back t)))
   end.
 
 Definition entries (t : table) : list (K * Z) := map (fun n => (nkey n, nval n)) (order t).
@@ -286,6 +356,8 @@ Arguments remove_first {K}. Arguments remove_at {K}. Arguments remove_key {K}. A
 Arguments append_all {K}. Arguments remove_all {K}. Arguments pairwise {K}. Arguments eq_tables {K}.
 Arguments value_res {K}. Arguments node_res {K}. Arguments with_var {K}. Arguments with_2 {K}. Arguments step {K}.
 Arguments entries {K}. Arguments m_obs {K}. Arguments run {K}. Arguments init {K}.
+Arguments begin_pos {K}. Arguments prev_in {K}. Arguments node_at {K}. Arguments prev_pos {K}. Arguments walk_back {K}.
+Arguments iter_back {K}. Arguments iter_fwd {K}.
 
 (* The concrete hash functions of the library (used only by the correspondence check to compare
    bucket indices; every theorem is about an arbitrary hash).
@@ -298,6 +370,33 @@ Arguments entries {K}. Arguments m_obs {K}. Arguments run {K}. Arguments init {K
 Definition two64 : Z := 18446744073709551616.
 Definition hash_int (v : Z) : Z := v mod two64.
 Definition hash_ptr (v : Z) : Z := Z.shiftr (v mod two64) gen_ptr_hash_shift.
+(* The integer key types, one overload of hash() each (Base.hpp: inline usize hash(T v) {return (usize)v;}).
+   A key is held as the mathematical value of the C++ object.  [wrap_key] = the value an integer takes when it is
+   converted to a type of [bits] bits (two's complement when signed): what the harness' (T)strtoll(..) yields.
+   (usize)v converts that value to the 64-bit unsigned type: the value modulo 2^64, i.e. sign extension for a
+   negative key of a signed type (hash(int8 -1) = 2^64 - 1), zero extension for the unsigned types, identity for
+   uint64.  Width and signedness of every type are regenerated from the typedefs of Base.hpp (Gen_HashKeys.v),
+   together with a check that each body is `return (usize)v;`. *)
+Definition wrap_key (bits : Z) (signed : bool) (v : Z) : Z :=
+  let m := v mod 2 ^ bits in
+  if signed && (2 ^ (bits - 1) <=? m) then m - 2 ^ bits else m.
+Definition hash_cast (bits : Z) (signed : bool) (v : Z) : Z := wrap_key bits signed v mod two64.
+Definition hash_int8 : Z -> Z := hash_cast gen_int8_bits gen_int8_signed.
+Definition hash_uint8 : Z -> Z := hash_cast gen_uint8_bits gen_uint8_signed.
+Definition hash_int16 : Z -> Z := hash_cast gen_int16_bits gen_int16_signed.
+Definition hash_uint16 : Z -> Z := hash_cast gen_uint16_bits gen_uint16_signed.
+Definition hash_int32 : Z -> Z := hash_cast gen_int32_bits gen_int32_signed.
+Definition hash_uint32 : Z -> Z := hash_cast gen_uint32_bits gen_uint32_signed.
+Definition hash_int64 : Z -> Z := hash_cast gen_int64_bits gen_int64_signed.
+Definition hash_uint64 : Z -> Z := hash_cast gen_uint64_bits gen_uint64_signed.
+Definition wrap_int8 : Z -> Z := wrap_key gen_int8_bits gen_int8_signed.
+Definition wrap_uint8 : Z -> Z := wrap_key gen_uint8_bits gen_uint8_signed.
+Definition wrap_int16 : Z -> Z := wrap_key gen_int16_bits gen_int16_signed.
+Definition wrap_uint16 : Z -> Z := wrap_key gen_uint16_bits gen_uint16_signed.
+Definition wrap_int32 : Z -> Z := wrap_key gen_int32_bits gen_int32_signed.
+Definition wrap_uint32 : Z -> Z := wrap_key gen_uint32_bits gen_uint32_signed.
+Definition wrap_int64 : Z -> Z := wrap_key gen_int64_bits gen_int64_signed.
+Definition wrap_uint64 : Z -> Z := wrap_key gen_uint64_bits gen_uint64_signed.
 Definition sx_char (b : Z) : Z := (if b <? 128 then b else b - 256) mod two64.
 Definition str_at (s : list Z) (i : Z) : Z := nth (Z.to_nat i) s 0.
 Definition hash_str (s : list Z) : Z :=
